@@ -137,6 +137,59 @@ func generateMore(suite string, seed uint64, i int, r *rng, id string, g gp) *Ca
 		edges, names := genGraph(r, g)
 		cfg := genCfg(r, cp{p1: []int{0, 1}, p2: []int{0, 1}, p4: sizeAware, p5: []int{0, 1, 2}, sizes: 1, virt: 1, trace: true, mon: true}, names)
 		return lay(cfg, edges)
+	case "c10-big": // large components (66..150 nodes): a long backbone listed first, then chords and hanging nodes that need
+		// pivots on tree edges late in the edge list; sometimes everything shuffled
+		L := r.rangeIn(66, 120)
+		var es [][2]int
+		for i := 0; i+1 < L; i++ {
+			es = append(es, [2]int{i, i + 1})
+		}
+		n := L
+		for x := r.rangeIn(2, 12); x > 0; x-- {
+			a, b := r.intn(L), r.intn(L)
+			if a == b {
+				continue
+			}
+			if a > b && r.chance(4, 5) {
+				a, b = b, a
+			}
+			switch r.intn(5) {
+			case 3, 4: // a new node below a with several long edges further down: the initial layering puts it right under a,
+				// the optimum pulls it down (a pivot on the tree edge a -> new node, which comes late in the edge list)
+				if a > b {
+					a, b = b, a
+				}
+				es = append(es, [2]int{a, n}, [2]int{n, b})
+				for y := r.rangeIn(1, 2); y > 0; y-- {
+					c := b + r.intn(L-b)
+					es = append(es, [2]int{n, c})
+				}
+				n++
+			case 0:
+				es = append(es, [2]int{a, b})
+			case 1: // a detour through a new node
+				es = append(es, [2]int{a, n}, [2]int{n, b})
+				n++
+			case 2: // two new nodes hanging between a and b
+				es = append(es, [2]int{a, n}, [2]int{n, n + 1}, [2]int{b, n + 1})
+				n += 2
+			}
+		}
+		if r.chance(1, 3) {
+			pm := r.perm(len(es))
+			es2 := make([][2]int, len(es))
+			for i, j := range pm {
+				es2[i] = es[j]
+			}
+			es = es2
+		}
+		var edges [][]string
+		for _, e := range es {
+			edges = append(edges, []string{plainName(e[0]), plainName(e[1])})
+		}
+		cfg := genCfg(r, cp{p1: []int{0, 1}, p2: []int{0}, p4: []int{1}, p5: []int{4}, trace: true, mon: true}, usedNames(edges))
+		cfg.Thor = -1
+		return lay(cfg, edges)
 	case "c10": // network simplex layering, graphs that need pivots
 		g.kind = []int{3, 3, 1, 1, 0}[r.intn(5)]
 		if r.chance(2, 3) {
@@ -238,7 +291,7 @@ func generateMore(suite string, seed uint64, i int, r *rng, id string, g gp) *Ca
 		}
 		return &Case{ID: id, Op: "multi", Arg: map[string]any{"rel": "rename", "map": mm},
 			Runs: []Run{{cfg, edges}, {&cfg2, e2}}}
-	case "union": // C09
+	case "union", "union-dec": // C09 (union-dec: sizes and spacings that are NOT dyadic - compared up to rounding)
 		g.comps = false
 		g.maxN, g.maxM = 6, 9
 		k := r.rangeIn(2, 3)
@@ -273,11 +326,40 @@ func generateMore(suite string, seed uint64, i int, r *rng, id string, g gp) *Ca
 			}
 		}
 		cfg := genCfg(r, cp{p1: []int{0, 1}, p2: []int{0, 1}, p4: []int{0, 1, 2, 3, 4}, bk: allBK, p5: []int{0, 1, 2, 4}, virt: 1}, usedNames(all))
+		arg := map[string]any{"rel": "union"}
+		if suite == "union-dec" {
+			if cfg.P4 == 3 {
+				cfg.P4 = []int{0, 1, 2, 4}[r.intn(4)]
+				if cfg.P4 == 4 {
+					cfg.BK = pick(r, allBK)
+				}
+			}
+			dec := func(s string) string { // one or two decimals: not representable in binary
+				x := math.Floor(pf(s))
+				if r.chance(1, 2) {
+					return fs(x + float64(1+r.intn(9))/10)
+				}
+				return fs(x + float64(1+r.intn(99))/100)
+			}
+			if cfg.NS != "" && pf(cfg.NS) != 0 {
+				cfg.NS = dec(cfg.NS)
+			}
+			if cfg.LS != "" && pf(cfg.LS) != 0 {
+				cfg.LS = dec(cfg.LS)
+			}
+			if cfg.Fixed != nil {
+				cfg.Fixed = []string{dec(cfg.Fixed[0]), dec(cfg.Fixed[1])}
+			}
+			for k, v := range cfg.Sizes {
+				cfg.Sizes[k] = []string{dec(v[0]), dec(v[1])}
+			}
+			arg["approx"] = 1.0
+		}
 		runs := []Run{{cfg, all}}
 		for _, comp := range componentsOf(all) {
 			runs = append(runs, Run{cfg, comp})
 		}
-		return &Case{ID: id, Op: "multi", Arg: map[string]any{"rel": "union"}, Runs: runs}
+		return &Case{ID: id, Op: "multi", Arg: arg, Runs: runs}
 	case "scale": // C17
 		edges, names := genGraph(r, g)
 		cfg := genCfg(r, cp{p1: []int{0, 1}, p2: []int{0, 1}, p4: []int{0, 1, 2, 4}, bk: allBK, p5: []int{0, 1, 2}, virt: 1}, names)
